@@ -175,10 +175,13 @@ var plans = map[string]Plan{
 			{Harness: "hctx", Config: "default", Race: true, Quick: 2000, Thorough: 100000, QuickSec: 40, ThoroughSec: 600},
 			// cancellation while a read or seek of the ctx reader is in flight (race mode)
 			{Harness: "hio", Config: "errors", Race: true, Quick: 1500, Thorough: 60000, QuickSec: 40, ThoroughSec: 400},
+			// system tier: whole fq in REPL / CLI mode under interrupts
+			{Harness: "hrepl", Config: "default", Quick: 500, Thorough: 40000, QuickSec: 40, ThoroughSec: 900, MemGB: 8},
+			{Harness: "hrepl", Config: "default", Race: true, Quick: 60, Thorough: 3000, QuickSec: 40, ThoroughSec: 600},
 		},
-		Rule: "one run = a tape-drawn list of 3..12 push/finish/observe/write/stop operations by an evaluator task against 0..3 interrupts by an interrupter task, scheduled at statement level (policy drawn per run) over the real ctxstack; oracle: history linearizable (porcupine) against a stack-of-contexts model, no panic in any task, no deadlock, no race report in race mode; distinct = distinct schedule fingerprint (FNV of the event log); non-trivial = at least two recorded operations",
-		Real: []string{"internal/ctxstack (statement-level yields)", "internal/iox.CtxWriter", "context"},
-		Stub: []string{"trigger source (1-buffered interrupt channel as in pkg/cli)", "scheduler", "io.Discard sink"},
+		Rule: "component tier: one run = a tape-drawn list of 3..12 push/finish/observe/write/stop operations by an evaluator task against 0..3 interrupts by an interrupter task, scheduled at statement level (policy drawn per run) over the real ctxstack; oracle: history linearizable (porcupine) against a stack-of-contexts model, no panic in any task, no deadlock, no race report in race mode; distinct = distinct schedule fingerprint (FNV of the event log); non-trivial = at least two recorded operations. hio race stage: cancellation while a read or seek of the ctx reader is in flight. system tier (hrepl): the whole of fq in REPL mode (fq -i, nested repl, multi-output lines each value displayed in a sub-evaluation, ^C at the prompt, ^D) or as one CLI evaluation, with 0..3 interrupts sent through the 1-buffered interrupt channel at tape-chosen OS events; reference = the same session without interrupts; oracle: per line (context-free lines, reference output known by text) the output is the reference with at most one contiguous piece removed per delivered interrupt not yet accounted for, lines evaluated before the first interrupt are exact, Main returns, no panic, no deadlock; race build of the same sessions",
+		Real: []string{"internal/ctxstack (statement-level yields)", "internal/iox.CtxWriter", "context", "internal/ctxreadseeker (hio race stage)", "the whole of fq incl. repl.jq, interp.go Eval/interruptStack (hrepl)"},
+		Stub: []string{"trigger source (1-buffered interrupt channel as in pkg/cli)", "scheduler", "io.Discard sink", "simulated OS with scripted readline (hrepl)"},
 		Assumptions: append([]string{
 			"the evaluator never pushes or finishes after Stop (fq calls Stop last); an abandoned entry popped by an outer finish is never finished itself (DESIGN §4)",
 		}, commonAssumptions...),
